@@ -87,6 +87,9 @@ func (s *ValidateStage) Process(ctx context.Context, item *BlockItem) error {
 	if !item.IsDecoded() {
 		return nil
 	}
+	if handled, err := verifValidateOverride(item); handled {
+		return err
+	}
 
 	start := time.Now()
 
